@@ -344,6 +344,20 @@ def gen_marker(seed, big):
         src = f"top\n<{skipper}>\nkeep\n<{RM} name='f1'>\ngone\n</{RM}>\ntail\n</{close}>\nend\n"
         exp = f"top\n<{skipper}>\nkeep\ntail\n</{close}>\nend\n"
         out.append((dict(cfg(), mode='clean', source=src, ds='<', de='>'), (lambda e, k: lambda r: None if r.get('ok') and r.get('output') == e else f'a targeted element nested in an element with skip [{k}] must still be removed, the skipped element itself stays: ' + json.dumps(r, ensure_ascii=False)[:200])(exp, skipper)))
+    # tag names that merely begin or end like a registered one are unregistered; so are names that differ in Unicode
+    # normalisation from a configured one
+    for tag in (TL + '2', 'x' + TL, TL + '-old', RM + 's', 'my-' + RM, RM[:-1], TL[1:], TL + '\u0301'):
+        src = doc(f"name='f1' to='{PAST}'", tag=tag)
+        out.append((dict(cfg(), mode='clean', source=src, ds='<', de='>'), (lambda s_, t: lambda r: None if r.get('ok') and r.get('output') == s_ else f'an element with the unregistered tag name {t!r} was changed: ' + json.dumps(r, ensure_ascii=False)[:160])(src, tag)))
+    for nm, tg, ready in (('caf\u00e9', 'cafe\u0301', False), ('cafe\u0301', 'caf\u00e9', False), ('caf\u00e9', 'caf\u00e9', True), ('\uff46\uff11', 'f1', False), ('f1\u200b', 'f1', False)):
+        src = doc(f"name='{nm}'")
+        exp = removed if ready else src
+        out.append((dict(cfg(targets=[tg]), mode='clean', source=src, ds='<', de='>'), (lambda e, a, t: lambda r: None if r.get('ok') and r.get('output') == e else f'name {a!r} against target {t!r}: names are compared code point by code point: ' + json.dumps(r, ensure_ascii=False)[:160])(exp, nm, tg)))
+    # a doubled quote is not an escape: the value ends at the first quote, the second one is a syntax error of the tag,
+    # the tag is no tag and nothing is ready
+    for attrs in ("c=\"a\"\"b\" name='f1'", "name='f1' c='it''s'", "name='f1''"):
+        src = doc(attrs)
+        out.append((dict(cfg(), mode='clean', source=src, ds='<', de='>'), (lambda s_, a: lambda r: None if r.get('ok') and r.get('output') == s_ else f'a doubled quote is not an escape ([{a}] is malformed, nothing is ready): ' + json.dumps(r, ensure_ascii=False)[:160])(src, attrs)))
     src = doc("name='f1' to='%s'" % PAST, tag='other-tag')
     out.append((dict(cfg(), mode='clean', source=src, ds='<', de='>'), (lambda s: lambda r: None if r.get('ok') and r.get('output') == s else 'unregistered tag name was removed')(src)))
     return out
